@@ -492,4 +492,7 @@ def run(tier):
         coro.push_yield_rule(run, f, "C07-YIELD-REQUESTS")
         coro.drain_rule(run, f, "C07-YIELD-DRAIN")
         wave2.request_pairing_rule(run, f, "C07-REQUEST-PAIRING")
+    # clauses added for the wave-2 seeds (rules/wave2.py; DESIGN 12a)
+    for _cfg, f in fx.items():
+        wave3.no_exit_before_yield_rule(run, f, "C07-NO-EXIT-BEFORE-YIELD")
     return run.finish()
